@@ -25,7 +25,14 @@ NOTES = ['1D: every (N, r) with 1 <= r <= N <= 9, T in 1..6, all three modes; pl
          'the C03 call sequences, each observed on its own; evolve1d/shared_rule/*: the observed call comes after 1-4 '
          'earlier calls that were given the same rule object (same / other radius, int8 <-> uint8 aliasing bytes, '
          'int32 <-> int64, other memoize mode), and is still compared with the model of that call alone',
-         'rule calls per cell: (filled in by the run)']
+         'rule calls per cell: (filled in by the run)',
+         'evolve1d/dress/*: the C03 dress bucket (every shape of twins.RULE_DRESSINGS outermost, user subclasses of '
+         'BaseRule / NKSRule / BinaryRule / TotalisticRule included), counts and sorted contents compared as usual',
+         'evolve1d/large_table/True is decided by the Python oracle alone (its Coq term is a constant that agrees): one '
+         'memoize=True call on 2048 cells x 700 steps x 256 states, about 1.37 million distinct neighbourhoods; rule '
+         'invocations must equal the number of distinct neighbourhoods (NumPy reference) and the array must equal the '
+         'reference.  A table limit above what this run reaches would escape this case: the tie of _get_memoized to the '
+         'model for all table sizes is the source translator\'s (harness/translate.py), not this case\'s']
 
 
 # ---------------------------------------------------------------- 1D
@@ -55,6 +62,80 @@ def gen_evolve1d(rng, tier):
             mode = g.VALID[calls[j]['memo']]
             yield {'kind': 'evolve1d/shared_rule/%s/%s' % (flavour, mode), 'dim': 'evolve1d', 'call': calls[j],
                    'prior': calls[:j]}
+    # the shape of the rule callable (twins.dress, outermost; user subclasses of the library's rule classes among
+    # them) must not change how often the rule is entered
+    for c in g.gen_dress(rng, tier):
+        call = c['calls'][0]
+        yield {'kind': 'evolve1d/dress/%s/%s' % (call['dress'], g.VALID[call['memo']]), 'dim': 'evolve1d', 'call': call}
+
+
+# ---- 1D, ORACLE-ONLY: one long call with more than 2**20 distinct neighbourhoods
+LARGE_K, LARGE_COLS, LARGE_STEPS = 256, 2048, 701
+
+
+def _large_f(a, b, c):
+    # a pure rule that works on Python ints and, elementwise, on int64 arrays alike
+    return (a * a + 3 * b + 5 * c * c + a * c + b * (b + 1) // 2 + 7) % LARGE_K
+
+
+class _CountingLarge:
+    def __init__(self):
+        self.count = 0
+
+    def __call__(self, nbhd_arg, cell_arg, step_arg):
+        self.count += 1
+        return _large_f(int(nbhd_arg[0]), int(nbhd_arg[1]), int(nbhd_arg[2]))
+
+
+def gen_large1d(rng, tier):
+    """memoize=True on 2048 cells x 700 steps over 256 states: about 1.37 million DISTINCT neighbourhoods in one call.
+    Decided by the Python oracle alone (the Coq term is a constant that agrees): a table that stops storing, evicts
+    or forgets entries below that size shows up as rule invocations > distinct neighbourhoods."""
+    for j in range(1 if tier == 'quick' else 2):
+        yield {'kind': 'evolve1d/large_table/True', 'dim': 'large1d', 'seed': rng.randrange(2 ** 31), 'dyn': j == 1}
+
+
+def run_large1d(c):
+    import hashlib
+    import numpy as np
+    import cellpylib as cpl
+    from harness.driver import call_impl
+    K, COLS, STEPS = LARGE_K, LARGE_COLS, LARGE_STEPS
+    initial = np.random.RandomState(c['seed']).randint(0, K, size=COLS).astype(np.int64)
+    reference = np.zeros((STEPS, COLS), dtype=np.int64)      # computed without cellpylib: ring, radius 1
+    reference[0] = initial
+    for t in range(1, STEPS):
+        x = reference[t - 1]
+        reference[t] = _large_f(np.roll(x, 1), x, np.roll(x, -1))
+    prev = reference[:-1]
+    codes = (np.roll(prev, 1, axis=1) * K + prev) * K + np.roll(prev, -1, axis=1)
+    rule = _CountingLarge()
+    ts = (lambda history_arg, count_arg: count_arg < STEPS) if c['dyn'] else STEPS
+    res = call_impl(lambda: cpl.evolve(np.array([initial]), timesteps=ts, apply_rule=rule, r=1, memoize=True), timeout=600)
+    if res[0] != 'ok':
+        return list(res)
+    out = np.asarray(res[1])
+    return ['ok', {'invocations': rule.count, 'distinct': int(len(np.unique(codes))), 'updates': int(codes.size),
+                   'same_as_reference': bool(out.shape == reference.shape and np.array_equal(out, reference)),
+                   'sha1': hashlib.sha1(np.ascontiguousarray(out).tobytes()).hexdigest(),
+                   'hit': rule.count < codes.size}]
+
+
+def emit_large1d(c, obs):
+    # nothing to compare in Coq (a run of this size is not evaluated there): a constant case that agrees
+    return '(CCalls1 (mkCall (RLin [1] 2) (PBool false) 1%nat [[0]] (TFixed 1%nat)) (Ok (0%nat, [])))'
+
+
+def oracle_large1d(c, obs):
+    if obs[0] != 'ok':
+        return 'the large memoize=True call raised %s' % obs[1]
+    v = obs[1]
+    if not v['same_as_reference']:
+        return 'memoize=True changed the result of a %d-update evolution (reference computed with NumPy)' % v['updates']
+    if v['invocations'] != v['distinct']:
+        return ('memoize=True invoked the rule %d times for %d distinct neighbourhoods within one call (%d cell updates)'
+                % (v['invocations'], v['distinct'], v['updates']))
+    return None
 
 
 def run_evolve1d(c):
@@ -126,12 +207,20 @@ NOTES.append('2D rule calls per cell: (filled in by the run)')
 
 def gen_evolve2d(rng, tier):
     k = 0
+    nbig = 0
     for c in g2.generate(rng, tier):
         kind = c['kind'].split('/')[0]
         if kind == 'option':
             calls = [cl for cl in c['calls'] if cl['memo'] in ('rec_join', 'rec_bytes')]
         elif kind == 'sequence':
             calls = c['calls'][:2]
+        elif kind == 'bigr':          # windows > 1000 cells: memoize=True of the first two von Neumann processes (Coq cost)
+            nbig += 1
+            calls = [cl for cl in c['calls'] if cl['memo'] == 'true' and cl['ty'] == 'vn'] if nbig <= 2 else []
+        elif kind == 'dress':         # every dressing of the rule callable / predicate, all modes
+            calls = c['calls']
+        elif kind == 'floatret' and c.get('neg'):
+            calls = []                # the negated family has no C09 model; the positive one is RLin / RAff itself
         else:
             k += 1
             calls = c['calls'] if k % 3 == 0 else []
@@ -148,6 +237,22 @@ def gen_evolve2d(rng, tier):
                 if call['memo'] in _MODE2 and prior['memo'] in _MODE2:
                     yield {'kind': 'evolve2d/shared_rule/%s/%s' % (call['ty'], _MODE2[call['memo']]), 'dim': 'evolve2d',
                            'call': call, 'prior': [prior]}
+    # float_negcorner: float64 automata, von Neumann, mostly zeros with a few negative and positive cells, so that the
+    # same unmasked content occurs with different (negative / non-negative) values in the MASKED corners: masked cells
+    # must not count (exactly once per distinct unmasked content).  No -0.0 states (distinct bytes: outside the design).
+    n_neg = 40 if tier == 'quick' else 400
+    for i in range(n_neg):
+        R, C = rng.choice([(4, 4), (5, 5), (4, 6), (6, 6), (3, 5), (5, 4)])
+        r = rng.randint(1, min(R, C, 2))
+        g = [[0.0] * C for _ in range(R)]
+        for _ in range(rng.randint(1, 3)):
+            g[rng.randrange(R)][rng.randrange(C)] = rng.choice([-1.0, -1.0, -2.0, 1.0])
+        if not any(x < 0 for row in g for x in row):
+            g[rng.randrange(R)][rng.randrange(C)] = -1.0
+        memo = 'true' if i % 5 else rng.choice(['rec_lit', 'false'])
+        call = {'R': R, 'C': C, 'r': r, 'ty': 'vn' if i % 8 else 'moore', 'hist': [g], 'rule': g2._lin(rng, r, 3),
+                'memo': memo, 'ts': rng.choice([{'fixed': 2}, {'fixed': 3}, {'lt': 3}]), 'dtype': 'float64'}
+        yield {'kind': 'evolve2d/float_negcorner/%s/%s' % (call['ty'], _MODE2[memo]), 'dim': 'evolve2d', 'call': call}
 
 
 def _filled(vals, mask):
@@ -157,18 +262,23 @@ def _filled(vals, mask):
 def run_evolve2d(c):
     import numpy as np
     import cellpylib as cpl
+    from harness import twins
     call = c['call']
-    ca = np.array(call['hist'], dtype=np.dtype(call['dtype']))
-    rule = Logged2(make_rule(call['rule'], dim=2))
+    ca = g2._layout(np.array(call['hist'], dtype=np.dtype(call['dtype'])), call.get('layout'))
+    base = make_rule(call['rule'], dim=2)
+    if call.get('fret'):               # non-integral float results (stored truncated): same contents, same counts
+        base = g2.HalfLin(base, call['fret']['frac'], call['fret']['neg'], call['fret']['np'])
+    rule = Logged2(base)
+    handed = twins.dress(rule, call.get('dress'))      # the dressing is the outermost wrapper; the log sits inside
     for pc in c.get('prior', []):          # earlier calls of the same process with the same rule object
         pca = np.array(pc['hist'], dtype=np.dtype(pc['dtype']))
-        call_impl(lambda: cpl.evolve2d(pca, timesteps=g2._timesteps(pc['ts']), apply_rule=rule, r=pc['r'],
+        call_impl(lambda: cpl.evolve2d(pca, timesteps=g2._timesteps(pc['ts']), apply_rule=handed, r=pc['r'],
                                        neighbourhood='Moore' if pc['ty'] == 'moore' else 'von Neumann',
                                        memoize=g2.OPTIONS[pc['memo']][0]()))
     rule.log = []
     nb = 'Moore' if call['ty'] == 'moore' else 'von Neumann'
-    res = call_impl(lambda: cpl.evolve2d(ca, timesteps=g2._timesteps(call['ts']), apply_rule=rule, r=call['r'],
-                                         neighbourhood=nb, memoize=g2.OPTIONS[call['memo']][0]()))
+    res = call_impl(lambda: cpl.evolve2d(ca, timesteps=g2._timesteps(call['ts'], call.get('pdress')), apply_rule=handed,
+                                         r=call['r'], neighbourhood=nb, memoize=g2.OPTIONS[call['memo']][0]()))
     if res[0] != 'ok':
         return list(res)
     arr = g2._grids(res[1])
@@ -238,6 +348,9 @@ GENERATORS = {'evolve1d': gen_evolve1d, 'evolve2d': gen_evolve2d}
 RUNNERS = {'evolve1d': run_evolve1d, 'evolve2d': run_evolve2d}
 EMITTERS = {'evolve1d': emit_evolve1d, 'evolve2d': emit_evolve2d}
 ORACLES = {'evolve1d': oracle_evolve1d, 'evolve2d': oracle_evolve2d}
+# 1D oracle-only case kind (see gen_large1d)
+GENERATORS['large1d'], RUNNERS['large1d'], EMITTERS['large1d'], ORACLES['large1d'] = (
+    gen_large1d, run_large1d, emit_large1d, oracle_large1d)
 
 
 # ---------------------------------------------------------------- driver interface
@@ -298,3 +411,27 @@ def shrink(c):
         yield dict(c, call=dict(call, hist=call['hist'][-1:]))
     if call['dtype'] != 'int64':
         yield dict(c, call=dict(call, dtype='int64'))
+
+
+# ------------------------------------------------------------------ source tie (appended; harness/translate.py)
+# pre(): regenerate coq/gen/GenFuns_C09.v from the Python source of the tree under test and, if it changed, re-prove
+# GenProps/GenFunsEquivC09.v, GenProps/C09Src.v and Properties/C09.v (theorem C09_source_tie) by hand.
+# extra_checks(): report a failed translation / equivalence proof (theorem names, translator or coqc error).
+from harness import translate as _translate
+_prev_pre = globals().get('pre')
+_prev_extra_checks = globals().get('extra_checks')
+TRUSTED = list(globals().get('TRUSTED', [])) + [_translate.TRUSTED_NOTE]
+NOTES = list(globals().get('NOTES', [])) + [
+    'coq/gen/GenFuns_C09.v is regenerated from the Python source at the start of every run; theorem C09_source_tie '
+    'proves the regenerated definitions equal to the hand-written model for all inputs']
+
+
+def pre(ctx):
+    if _prev_pre is not None:
+        _prev_pre(ctx)
+    _translate.pre_hook(ctx, 'C09')
+
+
+def extra_checks(ctx):
+    out = list(_prev_extra_checks(ctx)) if _prev_extra_checks is not None else []
+    return out + _translate.extra_hook(ctx, 'C09')
